@@ -28,7 +28,7 @@ def pick_contracts(seed):
             ("f1", lambda d: d["ref"]["f"] == "TypeEnum" and d["op"] == "!="),
             ("f1", lambda d: d["ref"]["f"] == "OnCompletion" and d["op"] == "!="),
             ("f1", lambda d: d["ref"]["f"] == "RekeyTo" and d["skel"] == 11),
-            ("f1", lambda d: d["ref"]["f"] == "Fee" and d["skel"] == 12),
+            ("f1", lambda d: d["skel"] == 19),            # switch with two labels (successor order)
             ("f3", lambda d: d["ref"]["kind"] == "gtxn"),
             ("f3", lambda d: d["ref"]["kind"] in ("relp", "relm"))]
     out = []
